@@ -154,7 +154,11 @@ Inductive store := StMem | StSql.
 
 Inductive ccase :=
 | CHist (st : store) (ordered : bool) (hk : list (key * key)) (ops : list uop)
-        (expect : list result).
+        (expect : list result)
+    (* histories inside the statement: the backend model and the reference map *)
+| CModel (st : store) (ordered : bool) (hk : list (key * key)) (ops : list uop)
+         (expect : list result).
+    (* observations outside the statement (offsets / limits >= 2^63): the backend model only *)
 
 Definition backend_step (st : store) : table -> bop -> table * result :=
   match st with
@@ -173,6 +177,8 @@ Definition check_case (c : ccase) : bool :=
   | CHist st ordered hk ops expect =>
       list_eqb result_eqb (model_results st ordered hk ops) expect &&
       list_eqb result_eqb (spec_results ordered hk ops) expect
+  | CModel st ordered hk ops expect =>
+      list_eqb result_eqb (model_results st ordered hk ops) expect
   end.
 
 Fixpoint mismatches_from (i : nat) (cs : list ccase) : list nat :=
